@@ -609,7 +609,9 @@ def concretise(op, p, st):
     # the Host header itself is outside the model (no class of the specification depends on it): any legal or junk value
     # may come along - IPv6 literals and values with several colons included
     if st.mode != 'benign' and st.rng.random() < 0.35:
-        hdr['Host'] = st.rng.choice(['localhost:8080', '[::1]', '[::1]:8080', '[2001:db8::1]:80', 'a:b:c', 'localhost:', ':80',
+        # (not ':80' / ':443': MapProxy strips the default port, the host is empty then and the demo refuses to fetch its
+        # own capabilities from 'http:/...' with a plain 400 - a complete answer, but one that depends on this header)
+        hdr['Host'] = st.rng.choice(['localhost:8080', '[::1]', '[::1]:8080', '[2001:db8::1]:80', 'a:b:c', 'localhost:', ':8080',
                                      'example.org:443', '[fe80::1%25eth0]:80'])
     for name, header in (('h_inm', 'If-None-Match'), ('h_ims', 'If-Modified-Since')):
         c = g(name, 'absent')
